@@ -1070,8 +1070,8 @@ def oracle_attr_docs(a):
         fields = {f.metadata.get("name", f.name): f.name for f in dataclasses.fields(R)}
         for doc_spec in a["docs"]:
             attrs = "".join(f' d{i}="{G._xml_attr(v)}"' for i, v in doc_spec["attrs"])
-            kids = "".join(f"<t:d{i}>{v}</t:d{i}>" for i, vals in doc_spec["elems"] for v in vals)
-            doc = f'<t:r xmlns:t="urn:t"{attrs}>{kids}</t:r>'
+            kids = "".join((f'<t:d{i} xsi:nil="true"/>' if v is None else f"<t:d{i}>{v}</t:d{i}>") for i, vals in doc_spec["elems"] for v in vals)
+            doc = f'<t:r xmlns:t="urn:t" xmlns:xsi="{XSI}"{attrs}>{kids}</t:r>'
             if not schema.validate(etree.fromstring(doc.encode())):
                 continue
             try:
@@ -1091,7 +1091,7 @@ def oracle_attr_docs(a):
             out = XmlSerializer(context=ctx).render(obj)
             back = etree.fromstring(out.encode())
             exp_kids = [(f"d{i}", v) for i, vals in doc_spec["elems"] for v in vals]
-            got_kids = [(etree.QName(c).localname, c.text or "") for c in back]
+            got_kids = [(etree.QName(c).localname, None if c.get("{%s}nil" % XSI) == "true" else (c.text or "")) for c in back]
             if got_kids != exp_kids:
                 return f"document {doc} re-serialised with other children: {out}"
 
@@ -1113,6 +1113,26 @@ def oracle_attr_docs(a):
     return None
 
 
+XSI = "http://www.w3.org/2001/XMLSchema-instance"
+
+
+def covered_attr_docs(a, msg):
+    """known findings about xsi:nil (both None in the object): an absent optional nillable element is written as
+    nil; an empty nillable element is read as nil"""
+    if "other children" not in msg:
+        return None
+    nillable = [i for i, d in enumerate(a["decls"]) if d["kind"] == "element" and d.get("nillable")]
+    if not nillable:
+        return None
+    for ds in a["docs"]:
+        vals = dict(ds["elems"])
+        if any(a["decls"][i]["min"] == 0 and a["decls"][i]["max"] == 1 and not vals.get(i) for i in nillable):
+            return "C02-nillable-absent-rendered-nil"
+        if any("" in (vals.get(i) or []) for i in nillable):
+            return "C02-nillable-empty-read-as-nil"
+    return None
+
+
 def gen_attr_docs(rng, tier):
     n = 0
     while n < n_cases(tier, 60, 100000):
@@ -1121,6 +1141,8 @@ def gen_attr_docs(rng, tier):
         for _ in range(rng.randint(1, 7)):
             d = G.gen_decl(rng)
             if G.decl_valid(d) and not (d["kind"] == "element" and d["type"] is None):
+                if d["kind"] == "element" and d["fixed"] is None and d["default"] is None and rng.random() < 0.3:
+                    d["nillable"] = True
                 decls.append(d)
         if not decls:
             continue
@@ -1137,7 +1159,10 @@ def gen_attr_docs(rng, tier):
                     hi = d["min"] + 2 if d["max"] == MAXSIZE else d["max"]
                     k = rng.randint(d["min"], max(d["min"], hi))
                     val = d["fixed"] if d["fixed"] is not None else None
-                    elems.append([i, [val if val is not None else f"e{j}" for j in range(k)]])
+                    vals = [val if val is not None else f"e{j}" for j in range(k)]
+                    if d.get("nillable"):
+                        vals = [None if rng.random() < 0.4 else ("" if rng.random() < 0.15 else v) for v in vals]
+                    elems.append([i, vals])
             docs.append({"attrs": attrs, "elems": elems})
         yield {"decls": decls, "docs": docs, "config": {"compound_fields": True} if rng.random() < 0.2 else {}}
 
@@ -1358,7 +1383,7 @@ ORACLES = [
     Oracle("c02.valid_docs", gen_docs, oracle_docs, covered=covered_docs, from_ops=("gen.xsd_sites", "gen.xsd_occurs"), adapt=adapt_docs),
     Oracle("c02.group_refs", gen_groups, oracle_groups, covered=covered_groups),
     Oracle("c02.gschema_docs", gen_gschema_docs, oracle_gschema, covered=covered_gschema),
-    Oracle("c02.attr_docs", gen_attr_docs, oracle_attr_docs),
+    Oracle("c02.attr_docs", gen_attr_docs, oracle_attr_docs, covered=covered_attr_docs),
     Oracle("c02.derived_docs", gen_derived, oracle_derived),
     Oracle("c02.subst_docs", gen_subst_docs, oracle_docs, covered=covered_subst),
     Oracle("c02.ns_docs", gen_ns_docs, oracle_ns_docs, covered=covered_ns),
@@ -1400,8 +1425,28 @@ def finding_ns_heuristic():
     return (msg is not None and "rejected" in msg, msg or "the document now parses")
 
 
+def _nil_witness(vals):
+    return {"decls": [{"kind": "element", "min": 1, "max": 1, "default": None, "fixed": None, "type": "string"},
+                      {"kind": "element", "min": 0, "max": 1, "default": None, "fixed": None, "type": "string", "nillable": True}],
+            "docs": [{"attrs": [], "elems": [[0, ["e0"]], [1, vals]]}]}
+
+
+def finding_nil_absent():
+    a = _nil_witness([])
+    msg = oracle_attr_docs(a)
+    return (msg is not None and covered_attr_docs(a, msg) == "C02-nillable-absent-rendered-nil", msg or "the document now comes back unchanged")
+
+
+def finding_nil_empty():
+    a = _nil_witness([""])
+    msg = oracle_attr_docs(a)
+    return (msg is not None and covered_attr_docs(a, msg) == "C02-nillable-empty-read-as-nil", msg or "the document now comes back unchanged")
+
+
 FINDINGS = {
     "C02-duplicate-name-sites": finding_duplicate_sites,
+    "C02-nillable-absent-rendered-nil": finding_nil_absent,
+    "C02-nillable-empty-read-as-nil": finding_nil_empty,
     "C02-unprefixed-ref-unbound-target-namespace": finding_ns_heuristic,
     "C02-substitution-order-without-compound": finding_subst_order,
 }
